@@ -859,12 +859,15 @@ class World:
         self.choice_pos = 0
         self.choice_log = []
 
-    def reset_state(self):
-        # a new run starts from the snapshot: no object of the previous run is reachable, so the threads of generators it left
-        # suspended are reclaimed (without running any interpreted code)
+    def reclaim_gens(self):
         gens, self.live_gens = self.live_gens, []
         for g in gens:
             self.interp.gen_abandon(g)
+
+    def reset_state(self):
+        # a new run starts from the snapshot: no object of the previous run is reachable, so the threads of generators it left
+        # suspended are reclaimed (without running any interpreted code)
+        self.reclaim_gens()
         self.restore()
         self.steps = 0
         self.depth = 0
